@@ -235,7 +235,29 @@ def check(run):
     wrappers(run, prog, db)
 
 
+def history(run, prog, db):
+    """a currency collection built without extras must stay without extras whatever happened to other collections before (no shared default)"""
+    it = Interp(prog)
+    CC = prog.cls('CurrencyCollection')
+    a = it.construct(CC, [K(10)], {})
+    try:
+        da = a.attrs['other'].attrs['dict']
+        it.setitem(da, K(7), K(3))              # the caller tops up collection A in place: a.other.dict[7] = 3
+        b = it.construct(CC, [K(20)], {})
+        cell = cm.call_method(it, b, 'serialize')
+        out = dict(flat(decode(it, db, cell, 'CurrencyCollection')))
+        nrefs = len(cell.attrs['refs'].items)
+        parsed = it.call(it.getattr(CC, 'deserialize'), [cm.call_method(it, cm.call_method(it, it.construct(CC, [K(5)], {}), 'serialize'), 'begin_parse')], {})
+        pd = parsed.attrs['other'].attrs['dict']
+        ok = nrefs == 0 and (isinstance(pd, K) and pd.v is None or isinstance(pd, DictV) and not pd.d)
+        why = f'collection B built after A was topped up: serialises with {nrefs} reference(s) (must be 0); a third one parses with extras {vrepr(pd)[:40]}'
+    except RaiseEx as e:
+        ok, why = False, f'raises {e}'
+    run.check(ok, 'D1s', 'CurrencyCollection[state shared between instances]' if not ok else 'history: collections without extras are independent', why, prog.where(prog.method('CurrencyCollection', '__init__')))
+
+
 def wrappers(run, prog, db):
+    history(run, prog, db)
     def sym(n):
         return Sym(n, ty='int', key=('w', n), not_none=True)
 
